@@ -3,6 +3,7 @@ CONSTANTS
   Jobs <- JobsTiny
   Macros <- NoSyms
   Paths <- NoSyms
+  StripLastByteBug = FALSE
   EmitMode = "none"
 INVARIANT Agree
 CHECK_DEADLOCK FALSE
